@@ -91,7 +91,7 @@ def quiet_logger():
 def gen_jobs(rnd, n, fail_at=None):
     jobs = []
     for k in range(n):
-        kind = rnd.choice(["source", "source", "data", "empty-coll", "ctx-only-params", "source", "data", "empty-coll", "ctx-only-params", "no-nodes"])
+        kind = rnd.choice(["source", "source", "data", "empty-coll", "ctx-only-params", "source", "data", "empty-coll", "ctx-only-params", "no-nodes", "ctx-collection"])
         ctx = {"a": f"ctx{k}", "tag": k}
         data = None
         if kind == "source":
@@ -100,6 +100,11 @@ def gen_jobs(rnd, n, fail_at=None):
         elif kind == "data":
             data = ("TData", ["init", k])
             nodes = [{"processor": "TOp2", "parameters": {"a": k}}, {"processor": "TOpW"}]
+        elif kind == "ctx-collection":
+            # a collection of elements, each with its own context (ContextCollectionType), through sliced nodes
+            data = ("TColl", [["el", k, j] for j in range(3)])
+            nodes = [{"processor": "slice:TOp0:TColl"}, {"processor": "slice:TProbe:TColl", "context_key": "probed"}]
+            ctx = {"tag": k, "__collection__": {"global": {"shared": f"g{k}"}, "items": [{"item": f"i{k}_{j}"} for j in range(3)]}}
         elif kind == "no-nodes":
             # boundary of the pipeline length: zero nodes is a valid pipeline, the payload comes back unchanged
             data = ("TData", ["untouched", k])
@@ -144,6 +149,41 @@ def gen_jobs(rnd, n, fail_at=None):
     return jobs
 
 
+def make_ctx(spec):
+    """A job's context: a plain ContextType, or a ContextCollectionType (global part + one context per element)."""
+    from semantiva.context_processors import ContextType
+    from semantiva.context_processors.context_types import ContextCollectionType
+    spec = copy.deepcopy(spec)
+    coll = spec.pop("__collection__", None)
+    if coll is None:
+        return ContextType(spec)
+    return ContextCollectionType(global_context=dict(spec, **coll["global"]), context_list=[ContextType(dict(x)) for x in coll["items"]])
+
+
+def ctx_view(c):
+    """Canonical view of a result context, type included."""
+    from semantiva.context_processors.context_types import ContextCollectionType
+    base = pipegen.ctx_view(c)
+    if isinstance(c, ContextCollectionType):
+        # the job-id annotation of a collection context may live in the global part or in every element: it is reported once
+        items = [[kv for kv in pipegen.ctx_view(x) if kv[0] != "job_id"] for x in c]
+        d = c.to_dict()
+        glob = d.get("global", d) if isinstance(d, dict) else {}
+        glob_view = sorted([k, pipegen.enc(v)] for k, v in glob.items() if k != "job_id") if isinstance(glob, dict) else repr(glob)
+        out = [["__global__", json.dumps(glob_view, sort_keys=True, default=str)], ["__type__", "ContextCollectionType"],
+               ["__items__", json.dumps(items, sort_keys=True, default=str)]]
+        try:
+            jid = c.get_value("job_id")
+        except Exception:  # noqa: BLE001
+            jid = None
+        if isinstance(jid, (list, tuple)):
+            jid = jid[0] if jid and all(x == jid[0] for x in jid) else (json.dumps(list(jid), default=str) if jid else None)
+        if jid is not None:
+            out.append(["job_id", pipegen.enc(jid)])
+        return sorted(out)
+    return base
+
+
 def make_data(spec):
     from props import components as C
     if spec is None:
@@ -161,8 +201,8 @@ def direct(job):
     from semantiva.data_types import NoDataType
     d = make_data(job["data"])
     try:
-        out = Pipeline(copy.deepcopy(job["nodes"])).process(Payload(d if d is not None else NoDataType(), ContextType(copy.deepcopy(job["ctx"]))))
-        return ("ok", pipegen.data_view(out.data), pipegen.ctx_view(out.context))
+        out = Pipeline(copy.deepcopy(job["nodes"])).process(Payload(d if d is not None else NoDataType(), make_ctx(job["ctx"])))
+        return ("ok", pipegen.data_view(out.data), ctx_view(out.context))
     except Exception as exc:  # noqa: BLE001
         return ("error", type(exc).__name__, str(exc))
 
@@ -201,7 +241,7 @@ def run_batch(jobs, n_workers, switch, delays, fast=True, grace=6.0, prequeue=Fa
             ctx = copy.deepcopy(job["ctx"])
             if job.get("ctx_job_id_of_previous") and futures:
                 ctx["job_id"] = next((jid for jid, f in list(orch.pending_futures.items()) if f is futures[-1]), "finished-job-id")
-            fut = orch.enqueue(copy.deepcopy(job["nodes"]), data=make_data(job["data"]), context=ContextType(ctx),
+            fut = orch.enqueue(copy.deepcopy(job["nodes"]), data=make_data(job["data"]), context=make_ctx(ctx),
                                return_future=True)
             futures.append(fut)
         if prequeue:
@@ -242,7 +282,7 @@ def run_batch(jobs, n_workers, switch, delays, fast=True, grace=6.0, prequeue=Fa
             results.append(("exception", type(f.exception()).__name__, str(f.exception())))
         else:
             data, ctx = f.result()
-            results.append(("ok", pipegen.data_view(data), pipegen.ctx_view(ctx)))
+            results.append(("ok", pipegen.data_view(data), ctx_view(ctx)))
     return results, events, [t.name for t in threads if t.is_alive()]
 
 
